@@ -49,6 +49,10 @@ def gen_direct(rng, i, tier):
     rb = rng.choice([8, 16, 64, 1000, 4096, 4096, 65536, 200000] + ([1, 3, 7] if rng.random() < 0.15 else []))
     bias = rng.choice([0.0, 0.1, 0.5, 0.9, 1.0])
     lines = ["case %d" % i, "cfg %d %d %d %d %d %d %d %s" % (ch, rate, nom, mx, av, mn, rb, bias)]
+    if rng.random() < 0.4:
+        # other control requests (coupling / lowpass / impulse block bias, each restating what it reads back) between the accepted rate request
+        # and setup_init: the limits and the reservoir as configured must survive them
+        lines[1] += " K%d" % rng.choice([1, 1, 2, 4, 3, 7])
     if rng.random() < 0.3:
         # followed by a request that must be refused (tuning value out of range) although its limits are consistent and different
         k2 = rng.choice([32, 64, 96, 128, 256, 320, 500])
@@ -79,7 +83,7 @@ def gen_real(rng, i, tier):
         mx = max(1, k // 3)
     av = k if style == "cbr" else 0
     rb = rng.choice([4096, 30000, 200000])
-    lines = ["case %d" % i, "cfg %d %d %d %d %d %d %d %s" % (ch, rate, nom, mx, av, mn, rb, rng.choice([0.0, 0.1, 0.5, 1.0])),
+    lines = ["case %d" % i, "cfg %d %d %d %d %d %d %d %s%s" % (ch, rate, nom, mx, av, mn, rb, rng.choice([0.0, 0.1, 0.5, 1.0]), rng.choice(["", "", " K1", " K7"])),
              "encode %d %d %d" % (rate * (2 if tier == "quick" else 8), rng.choice([0, 1, 1, 3, 4, 2]), rng.randint(1, 10 ** 6))]
     if rng.random() < 0.3 and style != "cbr":
         # the set-up call alone, limits only (no nominal rate), every tuning value at its default
